@@ -214,14 +214,27 @@ func craftSmallOrder(ykey []byte, alpha []byte, r *rand.Rand) []byte {
 	return nil
 }
 
+// one Proof value is reused for every decoding of a run (UnmarshalBinary and SetBytes alternate): what it
+// yields must depend on the last decoded string only
+var sharedProof Proof
+var sharedTurn int
+
 func decodeOut(pi []byte) M {
-	out := M{"decode_ok": false, "reencoded": []int{}, "pth_ok": false, "pth_beta": []int{}}
+	out := M{"decode_ok": false, "reencoded": []int{}, "pth_ok": false, "pth_beta": []int{}, "shared_hash": []int{}}
 	var p *Proof
 	var err error
-	out["decode_panic"] = vCatch(func() { p, err = new(Proof).SetBytes(pi) })
+	out["decode_panic"] = vCatch(func() {
+		sharedTurn++
+		if sharedTurn%2 == 0 {
+			p, err = sharedProof.SetBytes(pi)
+		} else if err = sharedProof.UnmarshalBinary(pi); err == nil {
+			p = &sharedProof
+		}
+	})
 	if err == nil && p != nil {
 		out["decode_ok"] = true
 		out["reencoded"] = vInts(p.Bytes())
+		out["shared_hash"] = vInts(p.Hash())
 	}
 	var b []byte
 	var e2 error
@@ -255,10 +268,20 @@ func runF(op string, in M) (M, M) {
 		return out, ref.facts
 	case "vrf.Verify":
 		pk, alpha, pi := vBytes(in["pk"]), vBytes(in["alpha"]), vBytes(in["pi"])
-		var ok bool
-		var beta []byte
-		p := vCatch(func() { ok, beta = Verify(pk, alpha, pi) })
+		var ok, ok2 bool
+		var beta, beta2 []byte
+		// key, proof and alpha live in ONE buffer with spare capacity behind each part: Verify must not write to its inputs
+		buf := make([]byte, 0, len(pk)+len(pi)+len(alpha)+64)
+		buf = append(append(append(buf, pk...), pi...), alpha...)
+		keep := append([]byte{}, buf...)
+		pkS, piS, alS := buf[:len(pk)], buf[len(pk):len(pk)+len(pi)], buf[len(pk)+len(pi):]
+		p := vCatch(func() {
+			ok, beta = Verify(pkS, alS, piS)
+			ok2, beta2 = Verify(pkS, alS, piS)
+		})
 		out := decodeOut(pi)
+		out["inputs_intact"] = bytes.Equal(buf, keep) && bytes.Equal(buf[:cap(buf)][len(keep):], make([]byte, cap(buf)-len(keep)))
+		out["second_same"] = ok == ok2 && bytes.Equal(beta, beta2)
 		out["ok"], out["beta"], out["panic"], out["pi"] = ok, vInts(beta), p, vInts(pi)
 		f := M{"beta": []int{}}
 		if b, isb := in["beta"]; isb {
